@@ -309,6 +309,9 @@ class UFunc(Model):
         elif name == "reciprocal":
             res = rat(1) / vals[0]
             dtype = "float64"
+        elif name == "square":
+            res = vals[0] * vals[0]
+            dtype = "float64"
         elif name in PRED:
             res = (PRED[name], vals[0] - vals[1])
             dtype = "bool"
@@ -955,3 +958,64 @@ def check_vector_pair_space(run, tree):
             else:
                 run.ob(construct, not bad, vfi.where(), ("%d of %d cases wrong: " % (len(bad), n) + "; ".join(bad[:4])) if bad else "%d cases: every component denotes v.c %s w.c" % (n, sym),
                        "a component is combined with another component, in another unit, or an incompatible operand is accepted")
+
+
+def check_numpy_unit_space(run, tree):
+    """np.power (exponents -2..3, applied in every order within one fold so that remembered units would show), np.square, np.reciprocal,
+    np.negative, np.multiply, np.true_divide called as numpy functions over the unit list (pairs for the binary ones): the result denotes the
+    function of the physical quantities"""
+    ci = tree.cls(ARRAY_Q)
+    wn = tree.method(ci, "_wrap_numpy")
+    run.analysed(wn)
+    import itertools
+    A, B = rat(Poly.sym("A")), rat(Poly.sym("B"))
+    construct = ARRAY_Q + "[np.power / square / reciprocal / negative over %d units, exponents -2..3 in both orders]" % len(THOROUGH_UNITS)
+    bad, unres, n = [], [], 0
+    for u in THOROUGH_UNITS:
+        for order in (range(-2, 4), range(3, -3, -1)):
+            try:
+                hk = stack_hooks(tree)
+                a = arr(tree, hk, "A", u)
+                pa = phys(a)
+                for e in order:
+                    n += 1
+                    r = hk["ext"]["numpy.power"](a, e)
+                    if not (phys(r) == pa ** e):
+                        bad.append("np.power(a [%s], %d)" % (u, e))
+                for fn, want in (("square", pa * pa), ("reciprocal", rat(1) / pa), ("negative", -pa)):
+                    n += 1
+                    r = hk["ext"]["numpy." + fn](a)
+                    if not (phys(r) == want):
+                        bad.append("np.%s(a [%s])" % (fn, u))
+                if not (phys(a) == pa):
+                    bad.append("operand [%s] modified" % u)
+            except (Raised, ProgramRaised) as e:
+                bad.append("unit %s: raises %s" % (u, e))
+            except ERR as e:
+                unres.append("unit %s: %s" % (u, e))
+    if unres:
+        run.unresolved(construct, wn.where(), "cannot fold %d cases, e.g. %s" % (len(unres), unres[0]))
+    else:
+        run.ob(construct, not bad, wn.where(), ("%d of %d calls wrong: %s" % (len(bad), n, "; ".join(bad[:5]))) if bad else "%d calls denote the function of the quantity" % n,
+               "a power is labelled with the unit of another exponent, or a unary function keeps / loses the unit")
+    construct = ARRAY_Q + "[np.multiply / np.true_divide over %d x %d unit pairs]" % (len(THOROUGH_UNITS), len(THOROUGH_UNITS))
+    bad, unres, n = [], [], 0
+    for u1, u2 in itertools.product(THOROUGH_UNITS, repeat=2):
+        try:
+            hk = stack_hooks(tree)
+            a, b = arr(tree, hk, "A", u1), arr(tree, hk, "B", u2)
+            pa, pb = phys(a), phys(b)
+            for fn, want in (("multiply", pa * pb), ("true_divide", pa / pb)):
+                n += 1
+                r = hk["ext"]["numpy." + fn](a, b)
+                if not (phys(r) == want):
+                    bad.append("np.%s(a [%s], b [%s])" % (fn, u1, u2))
+        except (Raised, ProgramRaised) as e:
+            bad.append("%s, %s: raises %s" % (u1, u2, e))
+        except ERR as e:
+            unres.append("%s, %s: %s" % (u1, u2, e))
+    if unres:
+        run.unresolved(construct, wn.where(), "cannot fold %d cases, e.g. %s" % (len(unres), unres[0]))
+    else:
+        run.ob(construct, not bad, wn.where(), ("%d of %d calls wrong: %s" % (len(bad), n, "; ".join(bad[:5]))) if bad else "%d calls denote the product / quotient of the quantities" % n,
+               "the unit of a product or quotient computed through numpy does not follow the operands")
